@@ -310,7 +310,7 @@ def check(res, tier, replay=None):
                        "must equal the model's predicted bytes and satisfy the independent C01 oracle. non-trivial = at "
                        "least one event reached the disk; distinct by script text")
     res.assumptions = ["clock_gettime is replaced by a deterministic counter", "in Props/C01 a flushed buffer reaches the file whole; Props/C01Write and the short-write passes cover every split of it (errors are C10's subject)"]
-    prep = engine.prepare(res, drivers=("drv_rt",))
+    prep = engine.prepare(res, drivers=("drv_rt", "drv_conc"))
     proved = vcommon.prove(res, ["C01", "C01Write"])
     found = False
     if prep.bdir and prep.driver_ok:
@@ -339,9 +339,18 @@ def check(res, tier, replay=None):
                 res.dist("pass:eintr-write-%d" % n)
                 found = run_engine(res, prep, sub[: (20 if tier == "quick" else 200)], oracle_c01, "c01-eintr%d" % n,
                                    env_extra={"RT_FAULT": "write:%d:EINTR" % n}, fault_may_abort=True) or found
+        if not replay:
+            # ... and when several threads of the process flush and free bulky streams at the same time in
+            # relocation mode (OVNI_TMPDIR): each thread's file must still be what that thread emitted
+            # (the engine of C11; seeded C01-7: a function-static copy buffer in move_thread_to_final)
+            import c11
+            r2 = vcommon.rng("c01-mt-tmpdir")
+            tc = [c11.gen_tmpdir_case(r2, res) for _ in range(10 if tier == "quick" else 150)]
+            res.dist("pass:mt-tmpdir")
+            found = c11.run_mt_cases(res, prep, tc, "c01-mt-tmpdir", env_extra={"RT_TMPDIR": "1"}) or found
         for b in res.cov.get("correspondence_breaks", [])[:3]:
             proved = False
-            res.failed_obligations = getattr(res, "failed_obligations", []) + ["correspondence rt: " + b["what"] + " on: " + b["script"]]
+            res.failed_obligations = getattr(res, "failed_obligations", []) + ["correspondence rt: " + b["what"] + " on: " + b.get("script", b.get("case", ""))]
     for pr in prep.problems:
         res.failed_obligations = getattr(res, "failed_obligations", []) + [pr]
         proved = False
